@@ -31,3 +31,34 @@ def simple_pre(expr: str, names):
 
     pre.__doc__ = expr
     return pre
+
+
+def split_cubes(obl, preds, cost_share=None):
+    """cube splitting: one obligation per sign combination of the predicates (exhaustive by construction: every input
+    satisfies exactly one combination), so a heavy obligation becomes 2^n independent, parallel ones."""
+    import copy
+    import itertools
+
+    names = list(preds)
+    out = []
+    for signs in itertools.product((True, False), repeat=len(names)):
+        o = copy.copy(obl)
+        tag = "_".join(("%s" if sg else "not-%s") % n for n, sg in zip(names, signs))
+        o.name = "%s__cube_%s" % (obl.name, tag)
+        base = obl.pre
+
+        def pre(base=base, signs=signs, **kw):
+            if base is not None and not base(**kw):
+                return False
+            for n, sg in zip(names, signs):
+                if bool(preds[n](**kw)) != sg:
+                    return False
+            return True
+
+        pre.__doc__ = (getattr(base, "__doc__", None) or "pre") + " and cube " + tag
+        o.pre = pre
+        o.cost = obl.cost / (cost_share or len(list(itertools.product((0, 1), repeat=len(names)))))
+        o.bounds = obl.bounds + "; cube " + tag
+        o.examples = [e for e in obl.examples if pre(**e)]
+        out.append(o)
+    return out
